@@ -3,9 +3,10 @@
     [Proofs/RoundTrip*.v]) with their [Print Assumptions], and non-vacuity
     examples.
 
-    PARTIAL: the theorems cover the CORE sub-grammar of [Doc/DocGrammar.v]
-    (stages (a)-(d) of the plan), for ALL documents of that grammar
-    (unbounded depth and size) and ALL contexts:
+    Two grammars, ALL documents of each (unbounded depth and size), ALL contexts.
+
+    (1) The CORE grammar of [Doc/DocGrammar.v] (stages (a)-(d), (e2) of the plan;
+        theorems [C02_..._partial] without "2", first half of this file):
 
       item ::= Text ws cs          whitespace, then a non-empty run of inert characters
              | Grp ws body tr      ws { body tr }
@@ -13,22 +14,55 @@
                                    covered by its unknown-macro fallback, [APStd] signature made only
                                    of mandatory [{] arguments ([AKExpr]), any [a_delta]; control word
                                    with post-space, or control symbol)
-             | Math ws k body tr   ws $ body tr $  |  ws \( body tr \)  |  ws \[ body tr \]
+             | Math ws k body tr   ws $ body tr $  |  \( \)  |  \[ \]  |  $$ $$
                                    (only where the parsing state is not in math mode)
-      doc  ::= item* tr            (tr: whitespace before the end of input)
-
              | Cmt ws text post    ws % text post   (text without newline; post = the newline and the
                                    whitespace after it)
              | Par ws mid          ws newline mid newline   (a whitespace run with two or more
                                    newlines that ends with its last newline, in a context that has
                                    the [\n\n] specials without arguments; [ws] without newline)
-    with [ws], [tr], [post] whitespace runs containing at most one newline
-    (never a paragraph break).  NOT covered (rest of stage (d), stage (e)):
-    a paragraph break followed by indentation or directly after a control word /
-    comment, paragraph-break whitespace in a context without the [\n\n] specials,
-    a comment ending at the end of input, optional star / bracket arguments, single-token
-    arguments, whitespace before an argument, environments, specials,
-    [$$ … $$], verbatim.
+      doc  ::= item* tr            (tr: whitespace before the end of input)
+    with [ws], [tr], [post] whitespace runs containing at most one newline.
+
+    (2) The EXTENDED grammar of [Doc/DocGrammar2.v] (stages (e1)-(e7); theorems
+        [C02_...2..._partial], second half of this file; the core grammar embeds:
+        [C02_core_grammar_embeds]).  Side conditions are evaluated against the
+        FOLLOW STRING of each item.  The above, with
+          - text characters = every character that is not whitespace, not [\ $ % { }] and at
+            which no specials sequence of the context matches ([a-b], [don't] are text);
+          - a comment may also end with the input, or stand before a paragraph break;
+          - a paragraph break may be followed by indentation and may come directly after a
+            control word / a comment (whose post-space then stops before its first newline);
+        plus
+             | Env2 ws bws name args body tr ews
+                                   ws \begin bws {name} args body tr \end ews {name}   (body in math mode
+                                   when the environment is declared so)
+             | Spc2 ws chars args  ws chars args   (the specials sequences of the context, longest match)
+             | Vrb2 ws name post dc text      ws \name post dc text dc   (the verbatim macro)
+             | VEnv2 ws bws name oarg text    ws \begin bws {name} [oarg] text \end{name}   (verbatim
+                                   environments; optional argument written or absent)
+        and ARGUMENTS written per slot of the declared signature of the macro / environment /
+        specials:
+             mandatory slot        a braced group [Grp2 ws …], or ONE TOKEN: a character [Text2 ws [c]], a
+                                   control sequence [Mac2 ws name post []] (its own arguments are not
+                                   parsed), a specials sequence [Spc2 ws chars []]; whitespace [ws] and
+                                   comments [Pre2 ws text post a] in front where the slot allows it
+             delimited slot        [Brk2 ws oc cc body tr] = ws [ body tr ] (any pair of single-character
+                                   delimiters), or [Abs2] when optional and not written
+             marker slot           [Text2 ws [*]] or [Abs2]
+             verbatim slot         [Vba2 ws od cd text]
+        with: an absent argument is not followed (after whitespace) by its opening character nor
+        by a malformed escape sequence; the two delimiter characters are not text DIRECTLY in
+        the body of a delimited argument (they are inside its braced children); at most
+        8·(length of the call token) − 4 absent arguments per call (the fuel of the model).
+
+    STILL PARTIAL (hence the names): not in any theorem are
+      - a delimited argument written directly (not inside braces) in the body of another
+        delimited argument (there the parser reads ALL children in the extended state),
+      - a whitespace run with two or more newlines in a context WITHOUT the [\n\n] specials
+        (it is a character token there), or where the [\n\n] specials takes arguments,
+      - a paragraph break as the single-token argument of a macro.
+    These stay covered by the differential correspondence and the structure oracle only.
 
     Full statement (kept for reference, not proved):
       forall ctx d, ctx_wf ctx = true -> ok_doc ctx d = true ->
@@ -37,13 +71,12 @@
 
     No side condition on the context turned out to be necessary
     ([ctx_side_conditions] would be vacuous): everything the proof needs from
-    the context is a condition on the DOCUMENT and is part of [ok_doc] (the
-    macros used have mandatory-brace signatures; text characters do not start
-    a specials sequence of the context). *)
+    the context is a condition on the DOCUMENT and is part of [ok_doc] / [ok_doc2]. *)
 From Coq Require Import NArith List Bool Arith.
 From PLV Require Import Base.PyStr Tok.PState Tok.Tokenizer Parse.Nodes Parse.Parser Parse.ParseWire
-                        Gen.GenWalkerCtx Doc.DocGrammar
-                        Proofs.RoundTripTok Proofs.RoundTripRules Proofs.RoundTrip Proofs.RoundTripWs.
+                        Gen.GenWalkerCtx Doc.DocGrammar Doc.DocGrammar2
+                        Proofs.RoundTripTok Proofs.RoundTripRules Proofs.RoundTrip Proofs.RoundTripWs
+                        Proofs.RoundTrip2 Proofs.RoundTrip2Ws Proofs.RoundTrip2Embed.
 Import ListNotations.
 
 (** ** The round trip: the strict parser, run with its own fuel on the written
@@ -169,3 +202,416 @@ Proof.
   split; [|split; [vm_compute; reflexivity|split; [vm_compute; discriminate|split; [vm_compute; reflexivity|vm_compute; discriminate]]]].
   unfold ws_variant, wse. cbn. vm_compute. intuition (try discriminate; try reflexivity).
 Qed.
+
+(** [$$ … $$] (stage (e2)) is the fourth [mathkind] of the core grammar:
+    [a $$ b\frac{1}{} $$$d$ $$$$] — display math, then inline math directly
+    after it, then an empty display formula *)
+Example C02_dollars_nonvacuous :
+  let d := {| d_items := [Text [] [97];
+                          Math [32] MDollars [Text [32] [98]; Mac [] [102;114;97;99] [] [Grp [] [Text [] [49]] []; Grp [] [] []]] [32];
+                          Math [] MDollar [Text [] [100]] []; Math [32] MDollars [] []];
+              d_trail := [] |} in
+  ok_doc default_ctx d = true /\
+  parse_top (unparse d) false default_ctx (walker_state default_ctx)
+  = Ok (ONode (Some (gen_nodelist 0 (fst (tree_of default_ctx (walker_state default_ctx) 0 d))))) (length (unparse d)) /\
+  length (fst (tree_of default_ctx (walker_state default_ctx) 0 d)) = 5%nat.
+Proof. vm_compute. repeat split. Qed.
+
+Close Scope N_scope.
+
+(** * The extended grammar of [Doc/DocGrammar2.v] (stage (e))
+
+      item2 ::= Text2 | Grp2 | Mac2 | Math2 | Cmt2 | Par2          (as the core grammar)
+              | Env2 ws bws name args body tr ews
+                      ws \begin bws {name} {arg}…{arg} body tr \end ews {name}
+                      (environment known to the context or covered by its unknown-environment
+                      fallback, standard signature made of mandatory brace arguments; the body is
+                      parsed in math mode when the environment is declared so; [bws], [ews] any
+                      whitespace; only where the state has environments enabled)
+              | Spc2 ws chars args          ws chars {arg}…{arg}   (a specials sequence of the context)
+              | Vrb2 ws name post dc text | VEnv2 ws bws name oarg text   (verbatim macro / environments)
+              | Brk2 ws oc cc body tr | Abs2   (argument position only: a delimited argument, an absent one)
+
+    The side conditions [ok_item2] see the whole FOLLOW STRING of an item.  In
+    particular a TEXT character of the extended grammar is any character that is not
+    whitespace, not [\ $ % { }] and at which NO specials sequence of the context matches
+    what is written from there on ([char_ok]) — so [a-b], [don't], [Hi!] are text under
+    the default context; the core grammar's [inert] excludes every character that merely
+    starts a specials sequence. *)
+
+(** ** The round trip for the extended grammar *)
+Theorem C02_parse_unparse2_partial : forall cx d,
+  ok_doc2 cx d = true ->
+  parse_top (unparse2 d) false cx (walker_state cx)
+  = Ok (ONode (Some (gen_nodelist 0 (fst (tree_of2 cx (walker_state cx) 0 d))))) (length (unparse2 d)).
+Proof. exact parse_unparse2. Qed.
+Print Assumptions C02_parse_unparse2_partial.
+
+(** the same in BOTH parsing modes (strict and tolerant): the strict parse of a
+    document of the grammar raises no error, and then the tolerant parser returns the
+    same tree (C06's strict/tolerant agreement) *)
+Theorem C02_parse_unparse2_modes_partial : forall cx d tol,
+  ok_doc2 cx d = true ->
+  parse_top (unparse2 d) tol cx (walker_state cx)
+  = Ok (ONode (Some (gen_nodelist 0 (fst (tree_of2 cx (walker_state cx) 0 d))))) (length (unparse2 d)).
+Proof. exact parse_unparse2_modes. Qed.
+Print Assumptions C02_parse_unparse2_modes_partial.
+
+(** ** The simulation behind it (any [Std] state, any collector with
+    [opts_ok], any offset of any input, any follow string) *)
+Theorem C02_items_simulation2_partial : forall s cx l ps o st pos fol k r,
+  Std cx ps -> opts_ok ps o -> r <> OutOfFuel ->
+  ok_items2 cx ps [] l fol = true ->
+  skipn pos s = unparse_items2 l ++ fol ->
+  run s false cx k (TCollect ps o (fst (absorb2 cx ps pos st l)) (pos + length (unparse_items2 l))) = r ->
+  run s false cx (k + 8 * length (unparse_items2 l)) (TCollect ps o st pos) = r.
+Proof. exact items_sim2_std. Qed.
+Print Assumptions C02_items_simulation2_partial.
+
+(** ** Whitespace never changes the structure (extended grammar) *)
+Corollary C02_whitespace_irrelevant2_partial : forall cx d d',
+  ws_variant2 d d' -> ok_doc2 cx d = true -> ok_doc2 cx d' = true ->
+  exists n n' p p',
+    parse_top (unparse2 d) false cx (walker_state cx) = Ok (ONode (Some n)) p /\
+    parse_top (unparse2 d') false cx (walker_state cx) = Ok (ONode (Some n')) p' /\
+    structure n = structure n'.
+Proof. exact whitespace_irrelevant2. Qed.
+Print Assumptions C02_whitespace_irrelevant2_partial.
+
+Theorem C02_tree_whitespace_irrelevant2_partial : forall cx ps pos pos' d d',
+  ws_variant2 d d' ->
+  structure_items (fst (tree_of2 cx ps pos d)) = structure_items (fst (tree_of2 cx ps pos' d')).
+Proof. exact tree_ws_variant2. Qed.
+Print Assumptions C02_tree_whitespace_irrelevant2_partial.
+
+(** ** Non-vacuity (extended grammar) *)
+Open Scope N_scope.
+
+(** [a \begin{center}\nb \begin {equation}x\alpha\n\end{equation} \end \n{center}\begin{tabular}{c}1$2$\end{tabular}\n\begin{z*}\end{z*} ]
+    — an environment without arguments containing a math environment (whitespace
+    inside [\begin {…}] / [\end {…}]), an environment with one argument, an unknown
+    environment (fallback) with an empty body *)
+Definition c02_doc2 : doc2 :=
+  {| d_items2 :=
+       [Text2 [] [97];
+        Env2 [32] [] [99;101;110;116;101;114] []
+             [Text2 [10] [98];
+              Env2 [32] [32] [101;113;117;97;116;105;111;110] []
+                   [Text2 [] [120]; Mac2 [] [97;108;112;104;97] [10] []] [] []] [32] [32;10];
+        Env2 [] [] [116;97;98;117;108;97;114] [Grp2 [] [Text2 [] [99]] []]
+             [Text2 [] [49]; Math2 [] MDollar [Text2 [] [50]] []] [] [];
+        Env2 [10] [] [122;42] [] [] [] []];
+     d_trail2 := [32] |}.
+
+Example C02_parse_unparse2_nonvacuous :
+  ok_doc2 default_ctx c02_doc2 = true /\
+  parse_top (unparse2 c02_doc2) false default_ctx (walker_state default_ctx)
+  = Ok (ONode (Some (gen_nodelist 0 (fst (tree_of2 default_ctx (walker_state default_ctx) 0 c02_doc2)))))
+       (length (unparse2 c02_doc2)) /\
+  length (unparse2 c02_doc2) = 128%nat /\
+  length (fst (tree_of2 default_ctx (walker_state default_ctx) 0 c02_doc2)) = 6%nat.
+Proof. vm_compute. repeat split. Qed.
+
+(** the side conditions are not vacuous: an environment name the tokenizer does
+    not accept ([\begin{a#}]) is a token error *)
+Example C02_side_conditions2_needed :
+  let bad := {| d_items2 := [Env2 [] [] [97;35] [] [] [] []]; d_trail2 := [] |} in
+  ok_doc2 default_ctx bad = false /\
+  match parse_top (unparse2 bad) false default_ctx (walker_state default_ctx) with Ok _ _ => false | _ => true end = true.
+Proof. vm_compute. repeat split. Qed.
+
+(** a whitespace variant of [c02_doc2] *)
+Definition c02_doc2' : doc2 :=
+  {| d_items2 :=
+       [Text2 [] [97];
+        Env2 [10] [32;32] [99;101;110;116;101;114] []
+             [Text2 [32] [98];
+              Env2 [9] [] [101;113;117;97;116;105;111;110] []
+                   [Text2 [] [120]; Mac2 [] [97;108;112;104;97] [32] []] [] [10;10]] [10] [];
+        Env2 [] [32] [116;97;98;117;108;97;114] [Grp2 [] [Text2 [] [99]] []]
+             [Text2 [] [49]; Math2 [] MDollar [Text2 [] [50]] []] [] [];
+        Env2 [32;32] [] [122;42] [] [] [] []];
+     d_trail2 := [10] |}.
+
+Example C02_whitespace_irrelevant2_nonvacuous :
+  ws_variant2 c02_doc2 c02_doc2' /\ ok_doc2 default_ctx c02_doc2' = true /\
+  unparse2 c02_doc2 <> unparse2 c02_doc2' /\
+  structure_res (parse_top (unparse2 c02_doc2) false default_ctx (walker_state default_ctx))
+  = structure_res (parse_top (unparse2 c02_doc2') false default_ctx (walker_state default_ctx)) /\
+  structure_res (parse_top (unparse2 c02_doc2) false default_ctx (walker_state default_ctx)) <> None.
+Proof.
+  split; [|split; [vm_compute; reflexivity|split; [vm_compute; discriminate|split; [vm_compute; reflexivity|vm_compute; discriminate]]]].
+  unfold ws_variant2, wse. cbn. vm_compute. intuition (try discriminate; try reflexivity).
+Qed.
+
+(** specials (stage (e3)): [a~b -- c---d&\alpha~$x''$\n--] under the default
+    context — [--] before a space, [---], [''] in math mode, [--] at the end of
+    input; [----] written as two [--] violates the longest-match side condition
+    and really is [---] followed by [-]; and a specials sequence WITH an argument
+    (in math mode) under a hand-made context: [a !!{x! }! b] *)
+Example C02_specials_nonvacuous :
+  let d := {| d_items2 := [Text2 [] [97]; Spc2 [] [126] []; Text2 [] [98]; Spc2 [32] [45;45] []; Text2 [32] [99];
+                           Spc2 [] [45;45;45] []; Text2 [] [100]; Spc2 [] [38] []; Mac2 [] [97;108;112;104;97] [] [];
+                           Spc2 [] [126] []; Math2 [] MDollar [Text2 [] [120]; Spc2 [] [39;39] []] [];
+                           Spc2 [10] [45;45] []];
+              d_trail2 := [] |} in
+  let bad := {| d_items2 := [Spc2 [] [45;45] []; Spc2 [] [45;45] []]; d_trail2 := [] |} in
+  let cx1 := {| cx_macros := []; cx_envs := []; cx_unk_macro := None; cx_unk_env := None;
+                cx_specials := [([33;33], {| sp_args := APStd [{| a_spec := [123]; a_kind := AKExpr false;
+                                                                  a_delta := ADEnterMath |}];
+                                             sp_body_math := false |});
+                                ([33], {| sp_args := APStd []; sp_body_math := false |})] |} in
+  let d3 := {| d_items2 := [Text2 [] [97]; Spc2 [32] [33;33] [Grp2 [] [Text2 [] [120]; Spc2 [] [33] []] [32]];
+                            Spc2 [] [33] []; Text2 [32] [98]];
+               d_trail2 := [] |} in
+  (ok_doc2 default_ctx d = true /\
+   parse_top (unparse2 d) false default_ctx (walker_state default_ctx) = doc_result2 default_ctx d /\
+   length (fst (tree_of2 default_ctx (walker_state default_ctx) 0 d)) = 13%nat) /\
+  (ok_doc2 default_ctx bad = false /\
+   parse_top (unparse2 bad) false default_ctx (walker_state default_ctx) <> doc_result2 default_ctx bad) /\
+  (ok_doc2 cx1 d3 = true /\ parse_top (unparse2 d3) false cx1 (walker_state cx1) = doc_result2 cx1 d3).
+Proof. vm_compute. repeat split. discriminate. Qed.
+
+(** optional arguments (stage (e4)):
+    [\section*[a]{b}\n\section {c}\item[x{]}\alpha ]y \sqrt[3] {\sqrt {}}\\ *[1]\item\n]
+    — star and bracket argument written / absent, a closing bracket inside a braced
+    child of a bracket argument, a macro call inside a bracket argument, whitespace in
+    front of a braced and of a star argument, an absent bracket argument at the end of
+    the input *)
+Definition c02_doc4 : doc2 :=
+  {| d_items2 :=
+       [Mac2 [] [115;101;99;116;105;111;110] []
+             [Text2 [] [42]; Brk2 [] 91 93 [Text2 [] [97]] []; Grp2 [] [Text2 [] [98]] []];
+        Mac2 [10] [115;101;99;116;105;111;110] [32] [Abs2; Abs2; Grp2 [] [Text2 [] [99]] []];
+        Mac2 [] [105;116;101;109] []
+             [Brk2 [] 91 93 [Text2 [] [120]; Grp2 [] [Text2 [] [93]] []; Mac2 [] [97;108;112;104;97] [32] []] []];
+        Text2 [] [121];
+        Mac2 [32] [115;113;114;116] []
+             [Brk2 [] 91 93 [Text2 [] [51]] [];
+              Grp2 [32] [Mac2 [] [115;113;114;116] [32] [Abs2; Grp2 [] [] []]] []];
+        Mac2 [] [92] [] [Text2 [32] [42]; Brk2 [] 91 93 [Text2 [] [49]] []];
+        Mac2 [] [105;116;101;109] [10] [Abs2]];
+     d_trail2 := [] |}.
+
+(** a whitespace variant of it *)
+Definition c02_doc4' : doc2 :=
+  {| d_items2 :=
+       [Mac2 [] [115;101;99;116;105;111;110] []
+             [Text2 [] [42]; Brk2 [] 91 93 [Text2 [] [97]] []; Grp2 [] [Text2 [] [98]] []];
+        Mac2 [32;32] [115;101;99;116;105;111;110] [10] [Abs2; Abs2; Grp2 [] [Text2 [] [99]] []];
+        Mac2 [] [105;116;101;109] []
+             [Brk2 [] 91 93 [Text2 [] [120]; Grp2 [] [Text2 [] [93]] []; Mac2 [] [97;108;112;104;97] [10] []] []];
+        Text2 [] [121];
+        Mac2 [10] [115;113;114;116] []
+             [Brk2 [] 91 93 [Text2 [] [51]] [];
+              Grp2 [9;9] [Mac2 [] [115;113;114;116] [32;32] [Abs2; Grp2 [] [] []]] []];
+        Mac2 [] [92] [] [Text2 [10] [42]; Brk2 [] 91 93 [Text2 [] [49]] []];
+        Mac2 [] [105;116;101;109] [32] [Abs2]];
+     d_trail2 := [] |}.
+
+Example C02_optional_arguments_nonvacuous :
+  (ok_doc2 default_ctx c02_doc4 = true /\
+   parse_top (unparse2 c02_doc4) false default_ctx (walker_state default_ctx) = doc_result2 default_ctx c02_doc4 /\
+   length (unparse2 c02_doc4) = 80%nat /\
+   length (fst (tree_of2 default_ctx (walker_state default_ctx) 0 c02_doc4)) = 8%nat) /\
+  (ws_variant2 c02_doc4 c02_doc4' /\ ok_doc2 default_ctx c02_doc4' = true /\
+   unparse2 c02_doc4 <> unparse2 c02_doc4' /\
+   structure_res (parse_top (unparse2 c02_doc4) false default_ctx (walker_state default_ctx))
+   = structure_res (parse_top (unparse2 c02_doc4') false default_ctx (walker_state default_ctx))).
+Proof.
+  split; [vm_compute; repeat split|].
+  split; [|split; [vm_compute; reflexivity|split; [vm_compute; discriminate|vm_compute; reflexivity]]].
+  unfold ws_variant2, wse. cbn. vm_compute. intuition (try discriminate; try reflexivity).
+Qed.
+
+(** the side conditions on optional arguments are not vacuous: [\item [] with the
+    bracket meant as text (an absent optional argument followed by [[]) is a parse
+    error; a closing bracket written as text directly inside a bracket argument
+    ([\item[a]]]) ends the argument; [\\ [1]] — the bracket argument of [\\] does not
+    allow whitespace in front of it — is [\\] without argument followed by text *)
+Example C02_optional_arguments_side_conditions_needed :
+  let bad1 := {| d_items2 := [Mac2 [] [105;116;101;109] [32] [Abs2]; Text2 [] [91]]; d_trail2 := [] |} in
+  let bad2 := {| d_items2 := [Mac2 [] [105;116;101;109] [] [Brk2 [] 91 93 [Text2 [] [97;93]] []]]; d_trail2 := [] |} in
+  let bad3 := {| d_items2 := [Mac2 [] [92] [] [Abs2; Brk2 [32] 91 93 [Text2 [] [49]] []]]; d_trail2 := [] |} in
+  let differs d := match parse_top (unparse2 d) false default_ctx (walker_state default_ctx) with
+                   | Ok (ONode (Some (NList _ _ l))) _ =>
+                       negb (Nat.eqb (length l) (length (fst (tree_of2 default_ctx (walker_state default_ctx) 0 d))))
+                   | _ => true end in
+  (ok_doc2 default_ctx bad1 = false /\ differs bad1 = true) /\
+  (ok_doc2 default_ctx bad2 = false /\ differs bad2 = true) /\
+  (ok_doc2 default_ctx bad3 = false /\ differs bad3 = true).
+Proof. vm_compute. repeat split. Qed.
+
+(** single-token arguments (stage (e5)):
+    [\textbf a\frac12 \textbf\alpha b\textbf ~\frac \alpha\beta\sqrt x\frac{1} 2\textbf\frac12$\frac a\n&$]
+    — a character, two characters for two slots, a control sequence (with its
+    post-space), a specials sequence, an absent bracket argument followed by a character,
+    a group then a character with whitespace in front, a control sequence whose own
+    arguments are NOT parsed ([\textbf\frac12]: the argument is [\frac] alone), and in
+    math mode a specials sequence on the next line *)
+Example C02_single_token_arguments_nonvacuous :
+  let textbf := [116;101;120;116;98;102] in let frac := [102;114;97;99] in
+  let alpha := [97;108;112;104;97] in let sqrt := [115;113;114;116] in
+  let d := {| d_items2 :=
+       [Mac2 [] textbf [32] [Text2 [] [97]];
+        Mac2 [] frac [] [Text2 [] [49]; Text2 [] [50]];
+        Mac2 [32] textbf [] [Mac2 [] alpha [32] []];
+        Text2 [] [98];
+        Mac2 [] textbf [32] [Spc2 [] [126] []];
+        Mac2 [] frac [32] [Mac2 [] alpha [] []; Mac2 [] [98;101;116;97] [] []];
+        Mac2 [] sqrt [32] [Abs2; Text2 [] [120]];
+        Mac2 [] frac [] [Grp2 [] [Text2 [] [49]] []; Text2 [32] [50]];
+        Mac2 [] textbf [] [Mac2 [] frac [] []]; Text2 [] [49;50];
+        Math2 [] MDollar [Mac2 [] frac [32] [Text2 [] [97]; Spc2 [10] [38] []]] []];
+     d_trail2 := [] |} in
+  let bad := {| d_items2 := [Mac2 [] textbf [] [Mac2 [] alpha [] []]; Text2 [] [98]]; d_trail2 := [] |} in
+  (ok_doc2 default_ctx d = true /\
+   parse_top (unparse2 d) false default_ctx (walker_state default_ctx) = doc_result2 default_ctx d /\
+   length (unparse2 d) = 100%nat /\
+   length (fst (tree_of2 default_ctx (walker_state default_ctx) 0 d)) = 12%nat) /\
+  (* [\textbf\alpha] directly followed by the letter [b] is [\textbf\alphab] *)
+  (ok_doc2 default_ctx bad = false /\
+   parse_top (unparse2 bad) false default_ctx (walker_state default_ctx) <> doc_result2 default_ctx bad).
+Proof. vm_compute. repeat split. discriminate. Qed.
+
+(** stage (e6): [a \n\t\n  b{c\n\n }\n\n\n\t%x {] — a paragraph break followed by an indented
+    line, one before a closing brace, one followed by an indented comment that ends with
+    the input (and contains a brace); a paragraph break whose follower starts on a
+    new line is rejected (the real paragraph token is longer); a comment without
+    newline inside a group swallows the closing brace *)
+Example C02_comment_eof_par_indent_nonvacuous :
+  let d := {| d_items2 := [Text2 [] [97]; Par2 [32] [9]; Text2 [32;32] [98];
+                           Grp2 [] [Text2 [] [99]; Par2 [] []] [32]; Par2 [] [10]; Cmt2 [9] [120;32;123] []];
+              d_trail2 := [] |} in
+  let bad1 := {| d_items2 := [Text2 [] [97]; Par2 [32] [9]; Text2 [10] [98]]; d_trail2 := [] |} in
+  let bad2 := {| d_items2 := [Grp2 [] [Cmt2 [] [120] []] []]; d_trail2 := [] |} in
+  (ok_doc2 default_ctx d = true /\
+   parse_top (unparse2 d) false default_ctx (walker_state default_ctx) = doc_result2 default_ctx d /\
+   length (unparse2 d) = 22%nat /\
+   length (fst (tree_of2 default_ctx (walker_state default_ctx) 0 d)) = 7%nat) /\
+  (ok_doc2 default_ctx bad1 = false /\
+   parse_top (unparse2 bad1) false default_ctx (walker_state default_ctx) <> doc_result2 default_ctx bad1) /\
+  (ok_doc2 default_ctx bad2 = false /\
+   parse_top (unparse2 bad2) false default_ctx (walker_state default_ctx) <> doc_result2 default_ctx bad2).
+Proof. vm_compute. repeat split; discriminate. Qed.
+
+(** verbatim (stage (e7)):
+    [a\verb|x{\%|b \verb +$+\begin{verbatim} \x{ %\end {v}\end{verbatim}\n\begin {lstlisting}[a=b]c\end{lstlisting}\begin{lstlisting} q\end{lstlisting}\begin{lstlisting}q[\end{lstlisting}]
+    — [\verb] with two delimiters (active characters inside), a verbatim environment
+    whose text contains [\end {v}], [lstlisting] with its optional argument written,
+    absent before a blank, absent before a character; [\verb|x||] (the delimiter in the
+    text) and [\begin{lstlisting}[q…] (an absent optional argument followed by [[]) are
+    rejected and really parse differently *)
+Example C02_verbatim_nonvacuous :
+  let verb := [118;101;114;98] in let verbatim := [118;101;114;98;97;116;105;109] in
+  let lstlisting := [108;115;116;108;105;115;116;105;110;103] in
+  let d := {| d_items2 :=
+       [Text2 [] [97]; Vrb2 [] verb [] 124 [120;123;92;37]; Text2 [] [98];
+        Vrb2 [32] verb [32] 43 [36];
+        VEnv2 [] [] verbatim [] [32;92;120;123;32;37;92;101;110;100;32;123;118;125];
+        VEnv2 [10] [32] lstlisting [Brk2 [] 91 93 [Text2 [] [97;61;98]] []] [99];
+        VEnv2 [] [] lstlisting [Abs2] [32;113];
+        VEnv2 [] [] lstlisting [Abs2] [113;91]];
+     d_trail2 := [] |} in
+  let bad1 := {| d_items2 := [Vrb2 [] verb [] 124 [120;124]]; d_trail2 := [] |} in
+  let bad2 := {| d_items2 := [VEnv2 [] [] lstlisting [Abs2] [91;113]]; d_trail2 := [] |} in
+  (ok_doc2 default_ctx d = true /\
+   parse_top (unparse2 d) false default_ctx (walker_state default_ctx) = doc_result2 default_ctx d /\
+   length (unparse2 d) = 181%nat /\
+   length (fst (tree_of2 default_ctx (walker_state default_ctx) 0 d)) = 9%nat) /\
+  (ok_doc2 default_ctx bad1 = false /\
+   parse_top (unparse2 bad1) false default_ctx (walker_state default_ctx) <> doc_result2 default_ctx bad1) /\
+  (ok_doc2 default_ctx bad2 = false /\
+   parse_top (unparse2 bad2) false default_ctx (walker_state default_ctx) <> doc_result2 default_ctx bad2).
+Proof. vm_compute. repeat split; discriminate. Qed.
+
+(** the verbatim ARGUMENT kind (custom signatures): under a context whose macro [\v]
+    takes a verbatim argument with automatic delimiters and one delimited by [< >]:
+    [\v {a{\}b}<x<%>>y  \v|$|\n <>] — nested braces are counted, active characters are
+    text, whitespace in front of the argument is skipped *)
+Example C02_verbatim_argument_nonvacuous :
+  let cxv := {| cx_macros := [([118], {| sp_args := APStd [{| a_spec := [118]; a_kind := AKVerb None; a_delta := ADNone |};
+                                                         {| a_spec := [118]; a_kind := AKVerb (Some ([60],[62])); a_delta := ADNone |}];
+                                        sp_body_math := false |})];
+                cx_envs := []; cx_specials := []; cx_unk_macro := None; cx_unk_env := None |} in
+  let d := {| d_items2 := [Mac2 [] [118] [32] [Vba2 [] 123 125 [97;123;92;125;98]; Vba2 [] 60 62 [120;60;37;62]];
+                           Text2 [] [121];
+                           Mac2 [32;32] [118] [] [Vba2 [] 124 124 [36]; Vba2 [10;32] 60 62 []]];
+              d_trail2 := [] |} in
+  let bad := {| d_items2 := [Mac2 [] [118] [] [Vba2 [] 123 125 [123]; Vba2 [] 60 62 []]]; d_trail2 := [] |} in
+  (ok_doc2 cxv d = true /\ parse_top (unparse2 d) false cxv (walker_state cxv) = doc_result2 cxv d /\
+   length (unparse2 d) = 28%nat) /\
+  (* an unbalanced opening delimiter in the text: the parser's scan ends later *)
+  (ok_doc2 cxv bad = false /\ parse_top (unparse2 bad) false cxv (walker_state cxv) <> doc_result2 cxv bad).
+Proof. vm_compute. repeat split. discriminate. Qed.
+
+(** a paragraph break directly after a control word / a comment:
+    [\alpha \n\n x\item\n \n%c\n\n\textbf\alpha\n\n\n] — the post-space of the control word
+    (of the comment) stops before the first newline of the paragraph break, also when
+    the control word has an absent optional argument or is itself an argument *)
+Example C02_par_after_control_word_nonvacuous :
+  let alpha := [97;108;112;104;97] in
+  let d := {| d_items2 := [Mac2 [] alpha [32] []; Par2 [] []; Text2 [32] [120];
+                           Mac2 [] [105;116;101;109] [] [Abs2]; Par2 [] [32];
+                           Cmt2 [] [99] []; Par2 [] [];
+                           Mac2 [] [116;101;120;116;98;102] [] [Mac2 [] alpha [] []]; Par2 [] [10]];
+              d_trail2 := [] |} in
+  ok_doc2 default_ctx d = true /\
+  parse_top (unparse2 d) false default_ctx (walker_state default_ctx) = doc_result2 default_ctx d /\
+  length (unparse2 d) = 39%nat /\
+  length (fst (tree_of2 default_ctx (walker_state default_ctx) 0 d)) = 9%nat.
+Proof. vm_compute. repeat split. Qed.
+
+(** comments in front of a mandatory argument (where the slot allows whitespace):
+    [\section%c\n{a}\frac{1} %x\n %y\n 2\frac%\n\alpha%z\n~] — the star and bracket
+    arguments of [\section] are absent (the next token is a comment), two comments before a
+    one-character argument, an empty comment before a control-sequence argument *)
+Example C02_comment_before_argument_nonvacuous :
+  let d := {| d_items2 :=
+       [Mac2 [] [115;101;99;116;105;111;110] [] [Abs2; Abs2; Pre2 [] [99] [10] (Grp2 [] [Text2 [] [97]] [])];
+        Mac2 [] [102;114;97;99] [] [Grp2 [] [Text2 [] [49]] [];
+                                    Pre2 [32] [120] [10;32] (Pre2 [] [121] [10;32] (Text2 [] [50]))];
+        Mac2 [] [102;114;97;99] [] [Pre2 [] [] [10] (Mac2 [] [97;108;112;104;97] [] []);
+                                    Pre2 [] [122] [10] (Spc2 [] [126] [])]];
+     d_trail2 := [] |} in
+  ok_doc2 default_ctx d = true /\
+  parse_top (unparse2 d) false default_ctx (walker_state default_ctx) = doc_result2 default_ctx d /\
+  length (unparse2 d) = 49%nat /\
+  length (fst (tree_of2 default_ctx (walker_state default_ctx) 0 d)) = 3%nat.
+Proof. vm_compute. repeat split. Qed.
+
+Close Scope N_scope.
+
+(** ** The core grammar is a sub-grammar of the extended one: [up_doc] keeps the
+    side conditions, the written form and the meaning — so
+    [C02_parse_unparse_partial] is an instance of [C02_parse_unparse2_partial]
+    ([Proofs/RoundTrip2Embed.v: parse_unparse_from_extended]). *)
+Theorem C02_core_grammar_embeds : forall cx d,
+  ok_doc cx d = true ->
+  ok_doc2 cx (up_doc d) = true /\ unparse2 (up_doc d) = unparse d /\
+  tree_of2 cx (walker_state cx) 0 (up_doc d) = tree_of cx (walker_state cx) 0 d.
+Proof. exact core_embeds. Qed.
+Print Assumptions C02_core_grammar_embeds.
+
+Open Scope N_scope.
+(** text characters that only START a specials sequence are text:
+    [don't a-b! ok?--x- $a-b$ \textbf-] — apostrophe, hyphen, [!], [?] in text (the default
+    context has the specials [''], [--], [---], [!`], [?`]), next to a real [--]; [a--b]
+    written as ONE text run (or as the runs [a-] and [-b]) is rejected and really parses
+    differently *)
+Example C02_text_characters_nonvacuous :
+  let d := {| d_items2 := [Text2 [] [100;111;110;39;116]; Text2 [32] [97;45;98;33]; Text2 [32] [111;107;63];
+                           Spc2 [] [45;45] []; Text2 [] [120;45];
+                           Math2 [32] MDollar [Text2 [] [97;45;98]] [];
+                           Mac2 [32] [116;101;120;116;98;102] [] [Text2 [] [45]]];
+              d_trail2 := [] |} in
+  let bad1 := {| d_items2 := [Text2 [] [97;45;45;98]]; d_trail2 := [] |} in
+  let bad2 := {| d_items2 := [Text2 [] [97;45]; Text2 [] [45;98]]; d_trail2 := [] |} in
+  (ok_doc2 default_ctx d = true /\
+   parse_top (unparse2 d) false default_ctx (walker_state default_ctx) = doc_result2 default_ctx d /\
+   length (unparse2 d) = 33%nat) /\
+  (ok_doc2 default_ctx bad1 = false /\
+   parse_top (unparse2 bad1) false default_ctx (walker_state default_ctx) <> doc_result2 default_ctx bad1) /\
+  (ok_doc2 default_ctx bad2 = false /\
+   parse_top (unparse2 bad2) false default_ctx (walker_state default_ctx) <> doc_result2 default_ctx bad2).
+Proof. vm_compute. repeat split; discriminate. Qed.
